@@ -305,8 +305,17 @@ Theorem C08_val_verdict_agrees_partial : forall fx f w mi n1 n2, import_free w -
                (st = true <-> compatible fx f w (Some (mi, n1)) (Some (mi, n2)) = Ok true).
 Proof. exact UnitsProofs.val_verdict_agrees_partial. Qed.
 Print Assumptions C08_val_verdict_agrees_partial.
-(* NOT PROVED: the same for the analyser's verdict (areSameUnitsMaps / ana_equiv); it is compared with the model on the
-   sampled public-route cases of the correspondence run only. *)
+
+(** The analyser's verdict for "x = y" (areSameUnitsMaps and areSameUnitsMultipliers: no units warning) is Units::equivalent
+    on the fragment where the three formulas agree, in a world without imports and without units named after standard units.
+    (Outside [agree_cond] the analyser's multiplier differs from Units' — C08_three_disagree_refuted — and so does its verdict.) *)
+Theorem C08_ana_verdict_agrees_partial : forall fx f w mi n1 n2, import_free w -> nonstd_names w ->
+  agree_cond f w mi n1 = true -> agree_cond f w mi n2 = true ->
+  is_defined fx f w mi n1 = Ok true -> is_defined fx f w mi n2 = Ok true ->
+  exists b, ana_equiv f w mi n1 n2 = Ok b /\
+            (b = true <-> equivalent fx f w (Some (mi, n1)) (Some (mi, n2)) = Ok true).
+Proof. exact UnitsProofs.ana_verdict_agrees_partial. Qed.
+Print Assumptions C08_ana_verdict_agrees_partial.
 
 (** ** termination *)
 
